@@ -24,6 +24,7 @@ META = dict(
          "by list.index of an equal tuple) was repaired with a fix: commit.",
     technique="decision tables of the prune tests, complete non-aliasing recursion rule, own-index tag rule",
 )
+META["text"] += ' R3 also: the node function has exactly its four parameters, no mutable default and no global state.'
 
 
 def run(chk):
